@@ -43,10 +43,10 @@ pub fn run(o: &mut Out, tier: &str, seed: u64) {
     dec_case(o, &[], "len0");
     for a in 0..=255u8 { dec_case(o, &[a], "len1"); }
     for a in 0..=255u8 { for b in 0..=255u8 { dec_case(o, &[a, b], "len2"); } }
-    // (2) thorough: every 3-byte string with a continuation bit on the first byte is covered by sampling 1/8 of the space
-    //     exhaustively per first byte (all 65 536 tails for 32 first bytes chosen by seed)
+    // (2) thorough: every 3-byte string (16.8 M), exhaustively
     if tier == "thorough" {
-        for _ in 0..32 { let a = rng.byte(); for b in 0..=255u8 { for c in 0..=255u8 { dec_case(o, &[a, b, c], "len3"); } } }
+        for a in 0..=255u8 { for b in 0..=255u8 { for c in 0..=255u8 { dec_case(o, &[a, b, c], "len3"); } } }
+        o.notes.push("thorough: all strings of length <= 3 enumerated exhaustively".into());
     }
     // (3) the 9/10/11-byte boundary families
     let lasts = [0x00u8, 0x01, 0x02, 0x03, 0x7f, 0x80, 0x81, 0xff];
